@@ -1537,3 +1537,11 @@ M('C04', 'repeated scalar additions merge by multiplication', 'odl/solvers/funct
 
         super(FunctionalScalarSum, self).__init__(
             left=func,""", 'FunctionalScalarSum.__init__')
+M('C05', 'weighted sum sampling drops imaginary parts (regression)', TOPS,
+  """        if is_real_dtype(self.range.dtype):
+            y = np.bincount(self._indices_flat, weights=x,
+                            minlength=self.range.size)
+        else:""", """        if True:
+            y = np.bincount(self._indices_flat, weights=x,
+                            minlength=self.range.size)
+        else:""", 'discretized, complex')
